@@ -123,6 +123,16 @@ def handleConstruct (req : Json) : Except String Json := do
         ("value", match o.value with | some v => Json.str v | none => Json.null)]).toArray),
     ("warns", Json.arr (warns.map warnJson).toArray)]
 
+/-- `{"kind":"initconst","inputs":[…],"initializers":[…],"nodes":[labels]}` :
+    `CustomInline.initializersToConstants` with `mkConst n = "Constant:" ++ n`. -/
+def handleInitConst (req : Json) : Except String Json := do
+  let inputs ← req.getObjValAs? (List String) "inputs"
+  let inits ← req.getObjValAs? (List String) "initializers"
+  let nodes ← req.getObjValAs? (List String) "nodes"
+  let g := CustomInline.initializersToConstants (fun n => "Constant:" ++ n)
+    { inputs := inputs, initializers := inits, nodes := nodes }
+  return Json.mkObj [("nodes", toJson g.nodes), ("initializers", toJson g.initializers)]
+
 def handle (req : Json) : Json :=
   match (do
     let kind ← req.getObjValAs? String "kind"
@@ -132,6 +142,7 @@ def handle (req : Json) : Json :=
     | "infer" => handleInfer req
     | "adapt" => handleAdapt req
     | "results" => handleResults req
+    | "initconst" => handleInitConst req
     | "construct" => handleConstruct req
     | _ => throw "unknown kind") with
   | .ok j => j
